@@ -1060,3 +1060,55 @@ def tuples_inside_q_values_become_lists(case, outcome, atoms):
             continue
         out.append(a)
     return out
+
+
+# ---------------------------------------------------------------------------
+# C13
+# ---------------------------------------------------------------------------
+
+def _contains_type(v, kinds):
+    if isinstance(v, dict):
+        if v.get('t') in kinds:
+            return True
+        return any(_contains_type(x, kinds) for x in v.values())
+    if isinstance(v, (list, tuple)):
+        return any(_contains_type(x, kinds) for x in v)
+    return False
+
+
+@explainer
+def function_expressions_rendered_under_models(case, outcome, atoms):
+    """DeconstructedSerialization.serialize_to_python writes every class whose
+    path starts with django.db.models as models.<Name>; database functions
+    (django.db.models.functions.Lower) are not attributes of that module."""
+    if not _contains_type(case.get('muts') or [], ('lower',)):
+        return atoms
+    return [a for a in atoms if not (a[0] == 'load_failed' and a[1] == 'AttributeError' and
+                                     "has no attribute 'Lower'" in a[2])]
+
+
+def _wrap_under_conn(v, under_conn=False):
+    if isinstance(v, dict):
+        if v.get('t') == 'q':
+            k = v.get('kind')
+            if k == 'wrap' and under_conn:
+                return True
+            if k == 'conn':
+                return any(_wrap_under_conn(c, True) for c in v['children'])
+            if k in ('not', 'wrap'):
+                return _wrap_under_conn(v['child'], False)
+            return False
+        return any(_wrap_under_conn(x, False) for x in v.values())
+    if isinstance(v, (list, tuple)):
+        return any(_wrap_under_conn(x, under_conn) for x in v)
+    return False
+
+
+@explainer
+def wrapper_q_squashed_on_load(case, outcome, atoms):
+    """Operator syntax cannot re-create a single-child wrapper Q that sits
+    directly inside a connector group: Q._combine squashes it on load."""
+    if not _wrap_under_conn(case.get('muts') or []):
+        return atoms
+    return [a for a in atoms if a[0] not in ('str_differs', 'value_differs',
+                                             'simulated_signature_differs', 'sql_differs')]
